@@ -72,6 +72,10 @@ var guardSpecs = []guardSpec{
 	{"callUpdateFinalizersGuard", "pkg/controller.v1beta1/trial/trial_controller.go", "Reconcile", "r.updateFinalizers(instance, finalizers)", trAtoms, trParams},
 	{"markTrialCreatedGuard", "pkg/controller.v1beta1/trial/trial_controller.go", "Reconcile", "instance.MarkTrialStatusCreated(", trAtoms, trParams},
 	{"callReconcileTrialGuard", "pkg/controller.v1beta1/trial/trial_controller.go", "Reconcile", "r.reconcileTrial(instance)", trAtoms, trParams},
+	{"callDeleteDeploymentGuard", "pkg/controller.v1beta1/suggestion/suggestion_controller.go", "Reconcile", "r.deleteDeployment(", srAtoms, srParams},
+	{"callDeleteServiceGuard", "pkg/controller.v1beta1/suggestion/suggestion_controller.go", "Reconcile", "r.deleteService(", srAtoms, srParams},
+	{"markSugCreatedGuard", "pkg/controller.v1beta1/suggestion/suggestion_controller.go", "Reconcile", "instance.MarkSuggestionStatusCreated(", srAtoms, srParams},
+	{"callReconcileSuggestionGuard", "pkg/controller.v1beta1/suggestion/suggestion_controller.go", "Reconcile", "r.ReconcileSuggestion(instance)", srAtoms, srParams},
 	{"sugRestartGuard", "pkg/controller.v1beta1/experiment/experiment_controller_util.go", "restartSuggestion", "original.DeepCopy()",
 		map[string]string{"err != nil": "getFailed", "errors.IsNotFound(err)": "notFound", "original.IsCompleted()": "sugCompleted", "original.IsRestarting()": "sugRestarting", "original.IsSucceeded()": "sugSucceeded", "instance.IsRestarting()": "expRestarting"},
 		[]string{"getFailed", "notFound", "sugCompleted", "sugRestarting", "sugSucceeded", "expRestarting"}},
@@ -158,6 +162,12 @@ var trAtoms = map[string]string{
 	"instance.Status.StartTime == nil": "startUnset", "instance.Status.CompletionTime == nil": "completionUnset",
 }
 var trParams = []string{"failed1", "failed2", "notFound", "finalizerUpdateDue", "created", "startUnset", "completionUnset"}
+
+var srAtoms = map[string]string{
+	"err != nil": "failed#", "errors.IsNotFound(err)": "notFound", "instance.IsSucceeded()": "succeeded", "instance.IsCreated()": "created",
+	"instance.Status.StartTime == nil": "startUnset",
+}
+var srParams = []string{"failed1", "failed2", "failed3", "failed4", "notFound", "succeeded", "created", "startUnset"}
 
 var verdictAtoms = map[string]string{
 	"jobStatus.Condition == trialutil.JobSucceeded": "jobSucceeded", "jobStatus.Condition == trialutil.JobFailed": "jobFailed",
